@@ -6,8 +6,8 @@ import Q1t.Proofs.ConjPrimDefs
   (for ANY table of the right shape; instantiated at the generated one);
 * `C<G>` refuses and does not claim;
 * `is_stabilizer` of `Kron` / `Composite` / `Loop` is the conjunction over the parts;
-* a term that does not claim refuses every operand slice — provided no non-claiming loop body is
-  iterated zero times (`NoDeadLoop`); the exception is real and witnessed;
+* a term that does not claim refuses every operand slice (all terms: `Loop::conjugate` asks
+  `is_stabilizer()` first, so a loop iterated zero times over a non-claiming body refuses too);
 * the routing predicate.
 -/
 namespace Q1t.Proofs.ConjModel
@@ -88,96 +88,68 @@ theorem isStab_loop (tbl : Table) (label nm : String) (k n : Nat) (ops : OpList 
 
 /-! ## a term that does not claim refuses -/
 
-mutual
-/-- no loop whose body does not claim is iterated zero times -/
-def NoDeadLoop (tbl : Table) : GateTerm P → Prop
-  | .C g => NoDeadLoop tbl g
-  | .Kron g0 g1 => NoDeadLoop tbl g0 ∧ NoDeadLoop tbl g1
-  | .Composite _ _ ops => NoDeadLoopOps tbl ops
-  | .Loop _ iters _ _ body => (iters = 0 → allStabT tbl body = true) ∧ NoDeadLoopOps tbl body
-  | _ => True
-def NoDeadLoopOps (tbl : Table) : OpList P → Prop
-  | .nil => True
-  | .cons g _ rest => NoDeadLoop tbl g ∧ NoDeadLoopOps tbl rest
-end
-
 def Result.refused (r : Conj.Result) : Prop := ∃ e, r = .error e
 
-theorem iterConj_refuses (f : List Pauli → Conj.Result) (hf : ∀ ops, Result.refused (f ops)) :
-    ∀ (k : Nat) (ops : List Pauli) (flip : Bool), 0 < k → Result.refused (iterConj f k ops flip)
-  | k + 1, ops, flip, _ => by
-    obtain ⟨e, he⟩ := hf ops
-    exact ⟨e, by simp [iterConj, he]⟩
-
 mutual
+/-- a term that does not claim refuses every operand slice: primitives and `C<G>` by their defaults, `Kron`
+and `Composite` because a part that does not claim is reached (or an earlier part fails), `Loop` because
+`Loop::conjugate` asks `self.is_stabilizer()` before iterating — also with zero iterations -/
 theorem term_refuses (tbl : Table) (noCheck : List String) (hs : TableShape tbl) :
-    (g : GateTerm P) → NoDeadLoop tbl g → isStabilizerT tbl g = false → ∀ ops : List Pauli,
+    (g : GateTerm P) → isStabilizerT tbl g = false → ∀ ops : List Pauli,
       Result.refused (conjugateT tbl noCheck g ops)
-  | .C g, _, _, ops => ⟨_, (C_refuses tbl noCheck g ops).2⟩
-  | .Kron g0 g1, hd, hf, ops => by
-    simp only [NoDeadLoop] at hd
+  | .C g, _, ops => ⟨_, (C_refuses tbl noCheck g ops).2⟩
+  | .Kron g0 g1, hf, ops => by
     simp only [isStabilizerT, Bool.and_eq_false_iff] at hf
     simp only [conjugateT]
     split
     · exact ⟨_, rfl⟩
     · rcases hf with hf | hf
-      · obtain ⟨e, he⟩ := term_refuses tbl noCheck hs g0 hd.1 hf (ops.take (nrBits g0))
+      · obtain ⟨e, he⟩ := term_refuses tbl noCheck hs g0 hf (ops.take (nrBits g0))
         exact ⟨e, by rw [he]⟩
       · cases h0 : conjugateT tbl noCheck g0 (ops.take (nrBits g0)) with
         | error e => exact ⟨e, rfl⟩
         | ok r =>
           obtain ⟨f0, o0⟩ := r
-          obtain ⟨e, he⟩ := term_refuses tbl noCheck hs g1 hd.2 hf (ops.drop (nrBits g0))
+          obtain ⟨e, he⟩ := term_refuses tbl noCheck hs g1 hf (ops.drop (nrBits g0))
           exact ⟨e, by simp only [he]⟩
-  | .Composite _ n body, hd, hf, ops => by
-    simp only [NoDeadLoop] at hd
+  | .Composite _ n body, hf, ops => by
     simp only [isStabilizerT] at hf
     simp only [conjugateT]
     split
     · exact ⟨_, rfl⟩
-    · exact ops_refuse tbl noCheck hs body hd hf ops false
-  | .Loop _ iters _ n body, hd, hf, ops => by
-    simp only [NoDeadLoop] at hd
+    · exact ops_refuse tbl noCheck hs body hf ops false
+  | .Loop _ iters _ n body, hf, ops => by
     simp only [isStabilizerT] at hf
-    simp only [conjugateT]
+    simp only [conjugateT, hf]
     split
     · exact ⟨_, rfl⟩
-    · have hpos : 0 < iters := by
-        rcases Nat.eq_zero_or_pos iters with h0 | h0
-        · rw [hd.1 h0] at hf; exact absurd hf (by simp)
-        · exact h0
-      apply iterConj_refuses _ _ iters ops false hpos
-      intro p
-      split
-      · exact ⟨_, rfl⟩
-      · exact ops_refuse tbl noCheck hs body hd.2 hf p false
-  | .H, _, hf, ops => ⟨_, prim_refuses tbl noCheck hs .H trivial hf ops⟩
-  | .X, _, hf, ops => ⟨_, prim_refuses tbl noCheck hs .X trivial hf ops⟩
-  | .Y, _, hf, ops => ⟨_, prim_refuses tbl noCheck hs .Y trivial hf ops⟩
-  | .Z, _, hf, ops => ⟨_, prim_refuses tbl noCheck hs .Z trivial hf ops⟩
-  | .S, _, hf, ops => ⟨_, prim_refuses tbl noCheck hs .S trivial hf ops⟩
-  | .Sdg, _, hf, ops => ⟨_, prim_refuses tbl noCheck hs .Sdg trivial hf ops⟩
-  | .T, _, hf, ops => ⟨_, prim_refuses tbl noCheck hs .T trivial hf ops⟩
-  | .Tdg, _, hf, ops => ⟨_, prim_refuses tbl noCheck hs .Tdg trivial hf ops⟩
-  | .V, _, hf, ops => ⟨_, prim_refuses tbl noCheck hs .V trivial hf ops⟩
-  | .Vdg, _, hf, ops => ⟨_, prim_refuses tbl noCheck hs .Vdg trivial hf ops⟩
-  | .I, _, hf, ops => ⟨_, prim_refuses tbl noCheck hs .I trivial hf ops⟩
-  | .RX θ, _, hf, ops => ⟨_, prim_refuses tbl noCheck hs (.RX θ) trivial hf ops⟩
-  | .RY θ, _, hf, ops => ⟨_, prim_refuses tbl noCheck hs (.RY θ) trivial hf ops⟩
-  | .RZ θ, _, hf, ops => ⟨_, prim_refuses tbl noCheck hs (.RZ θ) trivial hf ops⟩
-  | .U1 θ, _, hf, ops => ⟨_, prim_refuses tbl noCheck hs (.U1 θ) trivial hf ops⟩
-  | .U2 θ φ, _, hf, ops => ⟨_, prim_refuses tbl noCheck hs (.U2 θ φ) trivial hf ops⟩
-  | .U3 θ φ l, _, hf, ops => ⟨_, prim_refuses tbl noCheck hs (.U3 θ φ l) trivial hf ops⟩
-  | .CX, _, hf, ops => ⟨_, prim_refuses tbl noCheck hs .CX trivial hf ops⟩
-  | .CY, _, hf, ops => ⟨_, prim_refuses tbl noCheck hs .CY trivial hf ops⟩
-  | .CZ, _, hf, ops => ⟨_, prim_refuses tbl noCheck hs .CZ trivial hf ops⟩
-  | .Swap, _, hf, ops => ⟨_, prim_refuses tbl noCheck hs .Swap trivial hf ops⟩
+    · exact ⟨_, rfl⟩
+  | .H, hf, ops => ⟨_, prim_refuses tbl noCheck hs .H trivial hf ops⟩
+  | .X, hf, ops => ⟨_, prim_refuses tbl noCheck hs .X trivial hf ops⟩
+  | .Y, hf, ops => ⟨_, prim_refuses tbl noCheck hs .Y trivial hf ops⟩
+  | .Z, hf, ops => ⟨_, prim_refuses tbl noCheck hs .Z trivial hf ops⟩
+  | .S, hf, ops => ⟨_, prim_refuses tbl noCheck hs .S trivial hf ops⟩
+  | .Sdg, hf, ops => ⟨_, prim_refuses tbl noCheck hs .Sdg trivial hf ops⟩
+  | .T, hf, ops => ⟨_, prim_refuses tbl noCheck hs .T trivial hf ops⟩
+  | .Tdg, hf, ops => ⟨_, prim_refuses tbl noCheck hs .Tdg trivial hf ops⟩
+  | .V, hf, ops => ⟨_, prim_refuses tbl noCheck hs .V trivial hf ops⟩
+  | .Vdg, hf, ops => ⟨_, prim_refuses tbl noCheck hs .Vdg trivial hf ops⟩
+  | .I, hf, ops => ⟨_, prim_refuses tbl noCheck hs .I trivial hf ops⟩
+  | .RX θ, hf, ops => ⟨_, prim_refuses tbl noCheck hs (.RX θ) trivial hf ops⟩
+  | .RY θ, hf, ops => ⟨_, prim_refuses tbl noCheck hs (.RY θ) trivial hf ops⟩
+  | .RZ θ, hf, ops => ⟨_, prim_refuses tbl noCheck hs (.RZ θ) trivial hf ops⟩
+  | .U1 θ, hf, ops => ⟨_, prim_refuses tbl noCheck hs (.U1 θ) trivial hf ops⟩
+  | .U2 θ φ, hf, ops => ⟨_, prim_refuses tbl noCheck hs (.U2 θ φ) trivial hf ops⟩
+  | .U3 θ φ l, hf, ops => ⟨_, prim_refuses tbl noCheck hs (.U3 θ φ l) trivial hf ops⟩
+  | .CX, hf, ops => ⟨_, prim_refuses tbl noCheck hs .CX trivial hf ops⟩
+  | .CY, hf, ops => ⟨_, prim_refuses tbl noCheck hs .CY trivial hf ops⟩
+  | .CZ, hf, ops => ⟨_, prim_refuses tbl noCheck hs .CZ trivial hf ops⟩
+  | .Swap, hf, ops => ⟨_, prim_refuses tbl noCheck hs .Swap trivial hf ops⟩
 theorem ops_refuse (tbl : Table) (noCheck : List String) (hs : TableShape tbl) :
-    (l : OpList P) → NoDeadLoopOps tbl l → allStabT tbl l = false → ∀ (ops : List Pauli) (flip : Bool),
+    (l : OpList P) → allStabT tbl l = false → ∀ (ops : List Pauli) (flip : Bool),
       Result.refused (conjOpsT tbl noCheck l ops flip)
-  | .nil, _, hf, _, _ => by simp [allStabT] at hf
-  | .cons g bits rest, hd, hf, ops, flip => by
-    simp only [NoDeadLoopOps] at hd
+  | .nil, hf, _, _ => by simp [allStabT] at hf
+  | .cons g bits rest, hf, ops, flip => by
     simp only [allStabT, Bool.and_eq_false_iff] at hf
     simp only [conjOpsT]
     cases hg : gather ops bits with
@@ -190,9 +162,9 @@ theorem ops_refuse (tbl : Table) (noCheck : List String) (hs : TableShape tbl) :
         obtain ⟨fl, gops'⟩ := r
         simp only
         rcases hf with hf | hf
-        · obtain ⟨e, he⟩ := term_refuses tbl noCheck hs g hd.1 hf gops
+        · obtain ⟨e, he⟩ := term_refuses tbl noCheck hs g hf gops
           rw [he] at hc; exact absurd hc (by simp)
-        · exact ops_refuse tbl noCheck hs rest hd.2 hf _ _
+        · exact ops_refuse tbl noCheck hs rest hf _ _
 end
 
 /-! ## routing -/
